@@ -45,3 +45,34 @@ Theorem C11_send_fails_only_when_closing : forall (E : Type) (p : cpub E) i p', 
   exists c, nth_error (k_subs p) i = Some c /\ c_phase c <> Open.
 Proof. exact send_fails_only_when_closing. Qed.
 Print Assumptions C11_send_fails_only_when_closing.
+
+(* "each descendant's ... Events() channel is closed after any buffered events":
+   when the publisher stops, everything its parent ever published has been
+   picked up and distributed (nothing buffered in the parent's channel at the
+   moment it closed is lost); a subscription in its table that never overflowed
+   holds everything published since it subscribed up to the last event before
+   the shutdown; the exit of a subscription's goroutine (which closes its
+   channel) leaves what is buffered in place, and a consumer still receives it *)
+Theorem C11_publisher_drains_before_shutdown : forall (E : Type) l (p : cpub E), crun cinit l = Some p ->
+  k_down p = true -> k_seen p = k_all p /\ k_in p = [] /\ k_cur p = None.
+Proof. exact publisher_drains_before_shutdown. Qed.
+Print Assumptions C11_publisher_drains_before_shutdown.
+
+Theorem C11_subscriber_holds_everything_at_shutdown : forall (E : Type) l (p : cpub E) i c, crun cinit l = Some p ->
+  k_down p = true -> nth_error (k_subs p) i = Some c ->
+  c_drops c = 0 -> c_failed c = 0 -> c_listed c = true ->
+  held E c = skipn (c_from c) (k_all p).
+Proof. exact subscriber_holds_everything_at_shutdown. Qed.
+Print Assumptions C11_subscriber_holds_everything_at_shutdown.
+
+Theorem C11_exit_keeps_buffer : forall (E : Type) (p : cpub E) i p' c, cstep p (CExit i) = Some p' ->
+  nth_error (k_subs p) i = Some c ->
+  exists c', nth_error (k_subs p') i = Some c' /\ c_queue c' = c_queue c /\ c_passed c' = c_passed c /\ c_phase c' = Closed.
+Proof. exact exit_keeps_buffer. Qed.
+Print Assumptions C11_exit_keeps_buffer.
+
+Theorem C11_closed_channel_still_yields : forall (E : Type) (p : cpub E) i c e q,
+  nth_error (k_subs p) i = Some c -> c_queue c = e :: q ->
+  exists p', cstep p (CPop i) = Some p'.
+Proof. exact closed_channel_still_yields. Qed.
+Print Assumptions C11_closed_channel_still_yields.
